@@ -183,6 +183,13 @@ Qed.
 Lemma is_space_false c : 45 <= c -> is_space c = false.
 Proof. intros H. unfold is_space. lia. Qed.
 
+Lemma clamp64_id z : in_int64 z = true -> clamp64 z = z.
+Proof.
+  unfold clamp64, in_int64. intros H.
+  destruct (Z.ltb_spec z (-9223372036854775808)) as [?|_]; [lia|].
+  destruct (Z.ltb_spec 9223372036854775807 z) as [?|_]; [lia|reflexivity].
+Qed.
+
 Lemma strtoll_print z rest :
   in_int64 z = true -> stops 10 rest -> c_strtoll (print_dec_Z z ++ rest) = z.
 Proof.
@@ -191,14 +198,15 @@ Proof.
   - cbn [app skip_ws]. rewrite is_space_false by lia.
     unfold split_sign. cbn [N.eqb Pos.eqb].
     unfold print_dec_N. rewrite parse_print; [|left; reflexivity|assumption].
-    unfold clamp64, in_int64 in *. lia.
+    rewrite N2Z.inj_abs_N. rewrite Z.abs_neq by lia. rewrite Z.opp_involutive.
+    apply clamp64_id; assumption.
   - destruct (print_dec_N_head (Z.to_N z)) as (c & r & Hcr & Hc).
     rewrite Hcr. cbn [app skip_ws]. rewrite is_space_false by lia.
     unfold split_sign.
     destruct (N.eqb_spec c 45) as [?|_]; [lia|]. destruct (N.eqb_spec c 43) as [?|_]; [lia|].
     change (c :: r ++ rest) with ((c :: r) ++ rest). rewrite <- Hcr.
     unfold print_dec_N. rewrite parse_print; [|left; reflexivity|assumption].
-    unfold clamp64, in_int64 in *. lia.
+    rewrite Z2N.id by lia. apply clamp64_id; assumption.
 Qed.
 
 Lemma wrap32_id z : in_int32 z = true -> wrap32 z = z.
